@@ -133,7 +133,8 @@ def monitor(case, f, events):
     H = case["horizon"]
     for i, m in enumerate(case["markets"]):
         p = f.prices[i]
-        if p[0] != m["initial"]:
+        shocked0 = any(op["kind"] == "shock" and op["t"] == 0 and op["market"] == i for op in case["ops"])
+        if p[0] != m["initial"] and not shocked0:
             out.append(viol("C12/first-price-not-initial", "fundamental prices start at the configured initial value", {"market": i, "p0": p[0]}, case))
         if any(not (x > 0) for x in p[: H + 1]):
             out.append(viol("C12/non-positive-price", "fundamental prices stay strictly positive", {"market": i}, case))
